@@ -45,3 +45,44 @@ Proof.
   - destruct (is_empty (p_ns p)) eqn:E; [rewrite rsplit_once_none by exact H; reflexivity|rewrite rsplit_once_app by exact H; reflexivity].
 Qed.
 Print Assumptions C18_round. Print Assumptions C13_finish.
+
+(* ---------------- C18: what build() does with the pieces of a combined name ---------------- *)
+Section C18b. Variable cfg : config.
+(* what build() does for a PURL without qualifiers - the PURLs builder_with_combined_name starts from: the type's finish, then the name check, nothing else *)
+Theorem build_no_quals t p : p_quals p = [] ->
+  build cfg (ptype_shape cfg) t p =
+  match pt_finish cfg t p with
+  | Err e => Err e
+  | Ok (t1, p1) => if is_empty (p_name p1) then Err (PParse (EMissing FName)) else Ok (t1, p1)
+  end.
+Proof.
+  intros Hq. unfold build. cbn [sh_finish ptype_shape sh_inj].
+  assert (Hk : forall t1 p1, pt_finish cfg t p = Ok (t1, p1) -> p_quals p1 = []).
+  { unfold pt_finish. intros t1 p1 H. destruct t; try (inversion H; subst; exact Hq).
+    destruct (maven_ns_missing cfg (p_ns p)); inversion H; subst; exact Hq. }
+  destruct (pt_finish cfg t p) as [[t1 p1]|e] eqn:E; [|reflexivity].
+  specialize (Hk t1 p1 eq_refl). destruct (is_empty (p_name p1)); [reflexivity|].
+  rewrite Hk. cbn [q_retain filter]. unfold q_get.
+  assert (Hw : with_quals p1 [] = p1) by (destruct p1; cbn in *; subst; reflexivity).
+  destruct (check_key cfg s_checksum); cbn; rewrite Hw; reflexivity.
+Qed.
+Definition comb_parts (t : ptype) (s : bytes) : parts :=
+  let '(ns, name) := combined_split t s in
+  {| p_ns := match ns with Some n => n | None => [] end; p_name := name; p_ver := []; p_quals := []; p_sub := [] |}.
+(* builder_with_combined_name(t, s).build(): succeeds exactly when the split pieces satisfy the type's rule, and then yields those pieces
+   (name under the type's name rule); the refusals are the missing namespace (Maven) and the missing name, in that order *)
+Theorem C18_combined_build_spec t s :
+  let p := comb_parts t s in
+  build cfg (ptype_shape cfg) t p =
+  match t with
+  | Maven => if maven_ns_missing cfg (p_ns p) then Err (PMissing FNamespace)
+             else if is_empty (p_name p) then Err (PParse (EMissing FName)) else Ok (t, p)
+  | NuGet => if is_empty (lowercase_str cfg (p_name p)) then Err (PParse (EMissing FName)) else Ok (t, with_name p (lowercase_str cfg (p_name p)))
+  | PyPI => if is_empty (fix_pypi_name cfg (p_name p)) then Err (PParse (EMissing FName)) else Ok (t, with_name p (fix_pypi_name cfg (p_name p)))
+  | _ => if is_empty (p_name p) then Err (PParse (EMissing FName)) else Ok (t, p)
+  end.
+Proof.
+  intros p. rewrite build_no_quals by (unfold p, comb_parts; destruct (combined_split t s); reflexivity).
+  unfold pt_finish. destruct t; try reflexivity. destruct (maven_ns_missing cfg (p_ns p)); reflexivity.
+Qed.
+End C18b.
